@@ -169,3 +169,58 @@ class MinimalFile(object):
     def __getattr__(self, name):
         self.requested.append(name)
         raise AttributeError(name)
+
+
+class RawMem(io.RawIOBase):
+    """an in-memory *raw* stream (io.RawIOBase, what open(..., buffering=0) gives): mutagen must treat it like any other
+    caller-supplied object - use it directly, never close it; `fail_at` injects one IOError at that call index"""
+
+    def __init__(self, data=b"", name=None, fail_at=None):
+        io.RawIOBase.__init__(self)
+        self._b = io.BytesIO(data)
+        if name is not None:
+            self.name = name
+        self.fail_at = fail_at
+        self.calls = 0
+        self.close_calls = 0
+
+    def _tick(self):
+        i = self.calls
+        self.calls += 1
+        if self.fail_at is not None and i == self.fail_at:
+            raise IOError(errno.EIO, "injected I/O error")
+
+    def readable(self): return True
+    def writable(self): return True
+    def seekable(self): return True
+
+    def readinto(self, b):
+        self._tick()
+        d = self._b.read(len(b))
+        b[:len(d)] = d
+        return len(d)
+
+    def write(self, b):
+        self._tick()
+        return self._b.write(bytes(b))
+
+    def seek(self, off, whence=0):
+        self._tick()
+        return self._b.seek(off, whence)
+
+    def tell(self):
+        return self._b.tell()
+
+    def truncate(self, n=None):
+        self._tick()
+        return self._b.truncate(n)
+
+    def flush(self):
+        pass
+
+    def close(self):
+        self.close_calls += 1
+        io.RawIOBase.close(self)
+
+    def getvalue(self):
+        return self._b.getvalue()
